@@ -328,6 +328,101 @@ def check_connection(case):
     return None
 
 
+def naming_conn_cases():
+    """bundle connections in which the NAMES on the two sides differ or collide: whole bundle instances handed over as
+    members of an anonymous bundle under other names (crossed, renamed); a child whose flattened leaves want one name
+    (`b.c.x` and `b_c.x`, `b.x` and a scalar `b_x`), connected by a parent that declares its bundles in either order"""
+    for kind in ("anon-crossed", "anon-renamed", "anon-same-names", "anon-nested-renamed"):
+        yield ("naming", kind, 0)
+    for kind in ("leaf-collision", "scalar-collision", "signal-collision"):
+        for order in (0, 1):
+            for child_order in (0, 1):
+                yield ("naming", kind, order * 2 + child_order)
+
+
+def check_naming_connection(case):
+    import hdl21 as h
+    from rtc.meaning import meaning, package_meaning, compare, InvalidPackage, Unsupported as OracleUnsupported
+    _, kind, order = case
+    w = {"case": repr(case)}
+    T = h.ExternalModule(name="NTap", port_list=[h.Inout(name="a")], desc="", domain="c10n")
+    Sub = h.Bundle(name="NSub")
+    Sub.add(h.Signal(name="p"))
+    Sub.add(h.Signal(name="n"))
+    if kind.startswith("anon"):
+        Pair = h.Bundle(name="NPair")
+        Pair.add(Sub(), name="a")
+        Pair.add(Sub(), name="b")
+        child = h.Module(name="NChild")
+        child.pr = Pair(port=True)
+        for k, r in enumerate((child.pr.a.p, child.pr.a.n, child.pr.b.p, child.pr.b.n)):
+            child.add(T()(a=r), name=f"c{k}")
+        parent = h.Module(name="NParent")
+        n1, n2 = ("a", "b") if kind in ("anon-crossed", "anon-same-names") else ("first", "second")
+        i1, i2 = parent.add(Sub(), name=n1), parent.add(Sub(), name=n2)
+        for k, r in enumerate((i1.p, i1.n, i2.p, i2.n)):
+            parent.add(T()(a=r), name=f"p{k}")
+        if kind == "anon-crossed":
+            conn = h.AnonymousBundle(a=i2, b=i1)
+        elif kind == "anon-nested-renamed":
+            parent.third = Sub()
+            conn = h.AnonymousBundle(a=h.AnonymousBundle(p=i2.n, n=parent.third.p), b=i1)
+        else:
+            conn = h.AnonymousBundle(a=i1, b=i2)
+        parent.c = child(pr=conn)
+    else:
+        Cx = h.Bundle(name="NCx")
+        Cx.add(h.Signal(name="x"))
+        Outer = h.Bundle(name="NOuter")
+        Outer.add(Cx(), name="c")
+        Outer.add(h.Signal(name="y"))
+        child = h.Module(name="NChild2")
+        decls = [lambda: child.add(Outer(port=True), name="b")]
+        if kind == "leaf-collision":
+            decls.append(lambda: child.add(Cx(port=True), name="b_c"))           # b.c.x and b_c.x: both `b_c_x`
+        elif kind == "scalar-collision":
+            decls.append(lambda: child.add(h.Port(name="b_c_x")))
+        else:
+            decls.append(lambda: child.add(h.Signal(name="b_c_x")))
+        for d in (decls if order % 2 == 0 else reversed(decls)):
+            d()
+        child.t0 = T()(a=child.b.c.x)
+        child.t1 = T()(a=child.b.y)
+        if kind == "leaf-collision":
+            child.t2 = T()(a=child.b_c.x)
+        else:
+            child.t2 = T()(a=child.get("b_c_x"))
+        parent = h.Module(name="NParent2")
+        pdecls = [lambda: parent.add(Outer(), name="ob"), lambda: parent.add(Cx(), name="oc"), lambda: parent.add(h.Signal(name="os"))]
+        for d in (pdecls if order // 2 == 0 else reversed(pdecls)):
+            d()
+        parent.q0, parent.q1, parent.q2, parent.q3 = T()(a=parent.ob.c.x), T()(a=parent.ob.y), T()(a=parent.oc.x), T()(a=parent.os)
+        conns = dict(b=parent.ob)
+        if kind == "leaf-collision":
+            conns["b_c"] = parent.oc
+        elif kind == "scalar-collision":
+            conns["b_c_x"] = parent.os
+        if order // 2:
+            conns = dict(reversed(list(conns.items())))
+        parent.c = child(**conns)
+    try:
+        want = meaning(parent)
+    except OracleUnsupported as e:
+        return ("naming.oracle-unsupported", f"{case!r}: {e}", w)
+    try:
+        pkg = h.to_proto(parent)
+    except Exception as e:
+        return (f"connection.raises.{type(e).__name__}", f"{case!r}: valid bundle connection rejected: "
+                                                         f"{type(e).__name__}: {str(e)[-140:]}", w)
+    try:
+        diff = compare(want, package_meaning(pkg, parent.name))
+    except InvalidPackage as e:
+        diff = [f"the exported package is not a circuit: {e}"]
+    if diff:
+        return ("connection.members-disagree", f"{case!r}: {diff[0][:260]}", w)
+    return None
+
+
 def flipped_obligations(ctx):
     """PortDir.flipped by pyvc + the involution lemma over its contract."""
     import z3
@@ -405,6 +500,11 @@ def run(ctx):
                          "listing the members in reversed / sorted order, and member by member; leaf-level partition "
                          "compared with the reference interpreter; flat, nested, flipped and random definitions",
                     bound="depth<=2", key_of=repr, nontrivial=lambda c: c[1] != "whole")
+    ctx.run_bounded("bundle-connections-under-name-pressure", naming_conn_cases(), check_naming_connection,
+                    rule="whole bundle instances handed over as members of an anonymous bundle under other names (crossed, "
+                         "renamed, nested); a child whose flattened leaves want one name (b.c.x / b_c.x / a scalar b_c_x) "
+                         "declared and connected in either order: leaf-level partition == reference interpreter",
+                    bound="4 + 3 x 4 designs", key_of=repr)
     ctx.assumptions.append("'the instance's role' is read as the role of the bundle instance that directly contains "
                            "the leaf (roles are declared per bundle type); role-directed leaves are not flipped")
     return INFO
@@ -415,6 +515,6 @@ def replay(payload):
     if not c:
         return 2
     case = eval(c)
-    r = check_connection(case[1:]) if case[0] == "conn" else check_tree(case)
+    r = check_connection(case[1:]) if case[0] == "conn" else check_naming_connection(case) if case[0] == "naming" else check_tree(case)
     print("replay:", r)
     return 1 if r else 0
